@@ -26,7 +26,7 @@ def TranRow (w : Nat) (t o m q s t_a q_a : List Nat) (gotM goqM : M α) (mRows :
   (∃ (i : Nat) (g : List α), o[i]? = some p ∧ gotM.r[i]? = some g ∧
       ((goqM.c ≠ 0 ∧ ∃ qr, goqM.r[i]? = some qr ∧ ORow w t_a q_a g qr row) ∨
        (goqM.c = 0 ∧ ORow w t_a [] g [] row))) ∨
-  (∃ (i : Nat), m[i]? = some p ∧ row ∈ mRows) ∨
+  (∃ (i : Nat), m[i]? = some p ∧ row ∈ mRows ∧ row.length = w) ∨
   (∃ (i c : Nat), q[i]? = some p ∧ q_a[i]? = some c ∧ row = unitRow w c) ∨
   (∃ (i : Nat), s[i]? = some p ∧ row = zeroRow w)
 
@@ -47,6 +47,83 @@ theorem mkdofpv_lengths {pmask : Nat} {tbl : List Row} {sp : SetSpec} {req : Req
       · cases h
       · obtain ⟨dof, _, h⟩ := bind_ok h
         exact (mkdofpv_spec _ _ _ _ _ h).2.1.length_eq
+
+theorem expandRow_single (p : Nat × Nat) (h : p.2 < 10) : expandRow p = [p] := by
+  unfold expandRow digits
+  rw [digitsRev]
+  simp [h]
+
+theorem expanddof2_fixed : ∀ (l : List (Nat × Nat)), (∀ p ∈ l, p.2 ≤ 6) → l.flatMap expandRow = l
+  | [], _ => rfl
+  | p :: t, h => by
+      rw [List.flatMap_cons, expandRow_single p (by have := h p List.mem_cons_self; omega),
+        expanddof2_fixed t (fun q hq => h q (List.mem_cons_of_mem _ hq))]
+      rfl
+
+theorem expanddof_le6 {req : Request} {e : List (Nat × Nat)} (h : expanddof req = .ok e) :
+    ∀ p ∈ e, p.2 ≤ 6 := by
+  cases req with
+  | ids l g =>
+      simp only [expanddof, Except.ok.injEq] at h
+      subst h
+      intro p hp
+      unfold expanddof1 at hp
+      obtain ⟨n, _, hp⟩ := List.mem_flatMap.mp hp
+      obtain ⟨d, hd, rfl⟩ := List.mem_map.mp hp
+      cases g <;> simp at hd <;> omega
+  | rows r =>
+      simp only [expanddof, expanddof2] at h
+      split at h
+      · cases h
+      · rename_i hany
+        simp only [Except.ok.injEq] at h
+        subst h
+        intro p hp
+        by_contra hlt
+        exact hany (List.any_eq_true.mpr ⟨p, hp, by simpa using hlt⟩)
+
+/-- the DOF list a strict look-up returns is expanded already: looking it up again returns it unchanged -/
+theorem mkdofpv_rows_fixed {pmask : Nat} {tbl : List Row} {sp sp' : SetSpec} {req : Request}
+    {pv pv' : List Nat} {dof dof' : List (Nat × Nat)}
+    (h : mkdofpv pmask tbl sp req true = .ok (pv, dof))
+    (h' : mkdofpv pmask tbl sp' (.rows dof) true = .ok (pv', dof')) : dof' = dof := by
+  have hle : ∀ p ∈ dof, p.2 ≤ 6 := by
+    unfold mkdofpv at h
+    cases sp with
+    | p =>
+        simp only at h
+        obtain ⟨e, he, h⟩ := bind_ok h
+        rw [(mkdofpv_spec _ _ _ _ _ h).2.2 rfl]
+        exact expanddof_le6 he
+    | mask mk =>
+        simp only at h
+        obtain ⟨_, _, h⟩ := bind_ok h
+        split at h
+        · cases h
+        · obtain ⟨e, he, h⟩ := bind_ok h
+          rw [(mkdofpv_spec _ _ _ _ _ h).2.2 rfl]
+          exact expanddof_le6 he
+  have hex : expanddof (.rows dof) = .ok dof := by
+    simp only [expanddof, expanddof2, expanddof2_fixed dof hle]
+    rw [if_neg]
+    intro hany
+    obtain ⟨p, hp, hlt⟩ := List.any_eq_true.mp hany
+    have := hle p hp
+    simp only [decide_eq_true_eq] at hlt
+    omega
+  unfold mkdofpv at h'
+  cases sp' with
+  | p =>
+      simp only at h'
+      rw [hex] at h'
+      exact (mkdofpv_spec _ _ _ _ _ h').2.2 rfl
+  | mask mk =>
+      simp only at h'
+      obtain ⟨_, _, h'⟩ := bind_ok h'
+      split at h'
+      · cases h'
+      · rw [hex] at h'
+        exact (mkdofpv_spec _ _ _ _ _ h').2.2 rfl
 
 theorem liftE_ok {β : Type} {x : Except Err β} {v : β} (h : liftE x = .ok v) : x = .ok v := by
   cases x with
@@ -120,7 +197,7 @@ theorem formtran_partition_identity (mk : Masks) (tbl : List Row) (got goq gm : 
   let w := x.gotM.c + x.goqM.c
   -- the m-set part
   obtain ⟨m, hmset, hfm⟩ : ∃ m : List Nat, (mRows ≠ [] → setPos tbl mk.g mk.m = .ok m) ∧
-      List.Forall₂ (fun p row => ∃ (i : Nat), m[i]? = some p ∧ row ∈ mRows)
+      List.Forall₂ (fun p row => ∃ (i : Nat), m[i]? = some p ∧ row ∈ mRows ∧ row.length = w)
         (match x.pm with | some y => y.1 | none => []) mRows := by
     cases hpmv : x.pm with
     | none =>
@@ -144,7 +221,7 @@ theorem formtran_partition_identity (mk : Masks) (tbl : List Row) (got goq gm : 
         apply forall₂_of_getElem? (by rw [hl, ← hfg.length_eq, hfm.length_eq])
         intro k p row hp hrow
         obtain ⟨i, _, hi⟩ := forall₂_getElem?' hfm k p hp
-        exact ⟨i, hi, List.mem_of_getElem? hrow⟩
+        exact ⟨i, hi, List.mem_of_getElem? hrow, mBlock_row_length hmR row (List.mem_of_getElem? hrow)⟩
   have hT := forall₂_join hft (eyeBlock_spec htR hnt)
   have hO := forall₂_join hfo (oBlock_spec hoR hnt hnq hdis)
   have hQ := forall₂_join hfq (eyeBlock_spec hqR hnq)
@@ -178,6 +255,87 @@ theorem formtran_partition_identity (mk : Masks) (tbl : List Row) (got goq gm : 
   simp only [Option.some.injEq] at hrow'
   subst hrow'
   exact ⟨p, hp, hT'⟩
+
+/-- **formtran, all requested DOF in the a-set** (`se != 0`): `tran = np.eye(len(a-set))[pvdofa]` - row `k` is the
+unit vector at the position of requested DOF `k` within the a-set (`pvdofa = mkdofpv(uset, "a", dof)[0]`, whose
+entries are those positions by `mkdofpv_spec` / `mkdofpv_set`); the columns are the a-set DOF. -/
+theorem formtran_aset_identity (mk : Masks) (tbl : List Row) (got goq gm : Option (M α)) (req : Request)
+    (out : M α) (dof dofa : List (Nat × Nat)) (pvdof pvdofa : List Nat) (a : List Bool) (t_a q_a : List Nat)
+    (h : formtranUp mkKey mk tbl got goq gm req = .ok (out, dof))
+    (hpv : mkdofpv mk.p tbl (.mask mk.g) req true = .ok (pvdof, dof))
+    (ha : mksetpv (tbl.map (·.2.2)) mk.g mk.a = .ok a)
+    (hfast : pvdof.all (fun i => a[i]? == some true) = true)
+    (hta : setPos tbl mk.a mk.t = .ok t_a) (hqa : setPos tbl mk.a mk.q = .ok q_a)
+    (hpa : mkdofpv mk.p tbl (.mask mk.a) (.rows dof) true = .ok (pvdofa, dofa)) :
+    out.c = a.count true ∧
+    List.Forall₂ (fun i row => i < a.count true ∧ row = unitRow (a.count true) i) pvdofa out.r := by
+  unfold formtranUp at h
+  rw [hpv, hta, hqa, ha] at h
+  obtain ⟨pd, hpd, h⟩ := bind_ok h
+  cases liftE_ok hpd
+  simp only at h
+  obtain ⟨ta', hta', h⟩ := bind_ok h
+  cases hta'
+  obtain ⟨qa', hqa', h⟩ := bind_ok h
+  cases hqa'
+  obtain ⟨a', ha', h⟩ := bind_ok h
+  cases liftE_ok ha'
+  rw [hfast, hpa] at h
+  simp only [if_true] at h
+  obtain ⟨pd2, hpd2, h⟩ := bind_ok h
+  cases liftE_ok hpd2
+  simp only at h
+  obtain ⟨rows, hrows, h⟩ := bind_ok h
+  simp only [Except.ok.injEq, Prod.mk.injEq] at h
+  obtain ⟨rfl, _⟩ := h
+  refine ⟨rfl, (takeIdx_ok hrows).imp ?_⟩
+  intro i row hi
+  have hin : i < a.count true := by
+    have := (List.getElem?_eq_some_iff.mp hi).1
+    simpa using this
+  rw [List.getElem?_map, List.getElem?_range hin] at hi
+  exact ⟨hin, by simpa using hi.symm⟩
+
+/-- **the columns of `formtran` are the target set**: the result has one row per requested DOF and every row has
+`out.c` entries - the number of a-set DOF when every requested DOF is in the a-set, else the columns of `got`
+(t-set) plus the columns of `goq` (q-set), i.e. again the a-set of a well-formed dictionary. -/
+theorem formtran_columns_are_target_set (mk : Masks) (tbl : List Row) (got goq gm : Option (M α)) (req : Request)
+    (out : M α) (dof dofa : List (Nat × Nat)) (pvdof pvdofa : List Nat) (a : List Bool) (t_a q_a : List Nat)
+    (h : formtranUp mkKey mk tbl got goq gm req = .ok (out, dof))
+    (hpv : mkdofpv mk.p tbl (.mask mk.g) req true = .ok (pvdof, dof))
+    (ha : mksetpv (tbl.map (·.2.2)) mk.g mk.a = .ok a)
+    (hta : setPos tbl mk.a mk.t = .ok t_a) (hqa : setPos tbl mk.a mk.q = .ok q_a)
+    (hdis : ∀ c ∈ t_a, c ∉ q_a)
+    (hpa : pvdof.all (fun i => a[i]? == some true) = true →
+      mkdofpv mk.p tbl (.mask mk.a) (.rows dof) true = .ok (pvdofa, dofa)) :
+    out.r.length = dof.length ∧ (∀ row ∈ out.r, row.length = out.c) ∧
+    (pvdof.all (fun i => a[i]? == some true) = true → out.c = a.count true) ∧
+    (pvdof.all (fun i => a[i]? == some true) = false → ∃ gotM goqM : M α,
+      (∀ g, got = some g → gotM = g) ∧ (∀ g, goq = some g → goqM = g) ∧ out.c = gotM.c + goqM.c) := by
+  cases hc : pvdof.all (fun i => a[i]? == some true) with
+  | true =>
+      obtain ⟨h1, h2⟩ := formtran_aset_identity mkKey mk tbl got goq gm req out dof dofa pvdof pvdofa a t_a q_a
+        h hpv ha hc hta hqa (hpa hc)
+      refine ⟨?_, ?_, fun _ => h1, fun hf => by cases hf⟩
+      · rw [← h2.length_eq, mkdofpv_lengths (hpa hc), mkdofpv_rows_fixed hpv (hpa hc)]
+      · intro row hrow
+        obtain ⟨k, hk⟩ := List.getElem?_of_mem hrow
+        obtain ⟨i, _, _, hr⟩ := forall₂_getElem?' h2 k row hk
+        rw [hr, unitRow_length, h1]
+  | false =>
+      obtain ⟨t, o, m, q, s, gotM, goqM, mRows, _, _, _, _, _, hg1, hg2, hcw, hall⟩ :=
+        formtran_partition_identity mkKey mk tbl got goq gm req out dof pvdof a t_a q_a h hpv ha hc hta hqa hdis
+      refine ⟨hall.length_eq.symm, ?_, fun hf => (by cases hf), fun _ => ⟨gotM, goqM, hg1, hg2, hcw⟩⟩
+      intro row hrow
+      obtain ⟨k, hk⟩ := List.getElem?_of_mem hrow
+      obtain ⟨d, _, p, _, hT⟩ := forall₂_getElem?' hall k row hk
+      rw [hcw]
+      rcases hT with ⟨_, _, _, _, hr⟩ | ⟨_, _, _, _, hr⟩ | ⟨_, _, _, hr⟩ | ⟨_, _, _, _, hr⟩ | ⟨_, _, hr⟩
+      · rw [hr, unitRow_length]
+      · rcases hr with ⟨_, _, _, hO⟩ | ⟨_, hO⟩ <;> exact hO.1
+      · exact hr
+      · rw [hr, unitRow_length]
+      · rw [hr, zeroRow_length]
 
 end formtran
 end PyYetiVerif.C18
